@@ -27,7 +27,19 @@ func TestMain(m *testing.M) {
 	// logrus.New() captures the os.Stderr *variable* when a logger is built; point it at
 	// /dev/null so that log flags do not flood the driver. File descriptor 2 stays usable for
 	// the race detector and runtime fatals.
-	if os.Getenv("VERIF_KEEP_STDERR") == "" {
+	coordinator := false
+	for _, a := range os.Args {
+		if len(a) > 11 && a[:11] == "-test.fuzz=" {
+			coordinator = true
+		}
+	}
+	for _, a := range os.Args {
+		if a == "-test.fuzzworker" || a == "-test.fuzzworker=true" {
+			coordinator = false
+		}
+	}
+	// (the fuzz coordinator reports progress on os.Stderr; it must keep the real one)
+	if os.Getenv("VERIF_KEEP_STDERR") == "" && !coordinator {
 		if f, err := os.OpenFile(os.DevNull, os.O_WRONLY, 0); err == nil {
 			os.Stderr = f
 		}
